@@ -186,6 +186,7 @@ def op_table(npool):
         'call': st.tuples(st.just('call'), idx, form, rseed).map(list),
         'hammer': st.tuples(st.just('call'), st.integers(0, min(1, npool - 1)), st.just(0), rseed).map(list),
         'burst': st.tuples(st.just('burst'), idx, st.sampled_from([11, 21, 31, 12, 45]), idx).map(list),
+        'sweep': st.tuples(st.just('sweep'), idx, st.just(npool)).map(list),
         'dump': st.just(['dump']),
         'load': st.just(['load']),
         'dumpk': st.lists(idx, min_size=1, max_size=3).map(lambda x: ['dumpk', x]),
@@ -220,7 +221,7 @@ def op_lists(draw, weights, npool, min_ops, max_ops):
 
 
 DEFAULT_WEIGHTS = {'call': 12, 'hammer': 0, 'dump': 1, 'load': 1, 'dumpk': 1, 'loadk': 1, 'clear': 1,
-                   'clearkeep': 1, 'arch_off': 1, 'arch_on': 1, 'arch_query': 0, 'lookup': 0, 'key': 0, 'awrite': 0, 'burst': 0, 'redecorate': 0, 'reopen': 0, 'fork': 0, 'dumpreopen': 0}
+                   'clearkeep': 1, 'arch_off': 1, 'arch_on': 1, 'arch_query': 0, 'lookup': 0, 'key': 0, 'awrite': 0, 'burst': 0, 'sweep': 0, 'redecorate': 0, 'reopen': 0, 'fork': 0, 'dumpreopen': 0}
 
 
 @st.composite
